@@ -100,12 +100,20 @@ func genMatcher(r *Rng, w *World) Matcher {
 		m.Value = ".+"
 	case x < 60:
 		m.Value = ".*"
-	case x < 72:
+	case x < 67:
 		other := present
 		if len(vals) > 0 {
 			other = Pick(r, vals)
 		}
 		m.Value = "(" + q(present) + "|" + q(other) + ")"
+	case x < 72:
+		// anchors written by the user around an ungrouped alternation bind to the
+		// outer branches only: the whole pattern must still match the whole value
+		other := present
+		if len(vals) > 0 {
+			other = Pick(r, vals)
+		}
+		m.Value = "^" + q(present) + "|" + q(other) + "$"
 	case x < 74:
 		// an alternation with an empty branch also matches a missing or empty label
 		if r.Bool(0.5) {
